@@ -189,3 +189,29 @@ func devAlpha(pool *sup.Pool, args []string) int {
 }
 
 func init() { devCmds["alpha"] = devAlpha }
+
+// devGenAlpha: generate n programs with alphabet-wide names under several option sets and
+// check each against R1 (no worker needed).
+func devGenAlpha(pool *sup.Pool, args []string) int {
+	n, _ := strconv.Atoi(args[0])
+	bad := 0
+	for i := 0; i < n; i++ {
+		o := polOpt(i)
+		o.Alpha = 60
+		if i%3 == 0 {
+			o.Pol, o.Ctor = 55, 70
+		}
+		p, _, _ := gen.Generate(int64(7000+i), o)
+		if v := typing.Check(p); v.Kind != typing.Accept {
+			bad++
+			if bad == 1 {
+				fmt.Println(v)
+				fmt.Println(p.Text())
+			}
+		}
+	}
+	fmt.Println(n, "programs,", bad, "rejected by R1")
+	return 0
+}
+
+func init() { devCmds["genalpha"] = devGenAlpha }
